@@ -43,6 +43,9 @@ Next == /\ l <= Len(Rec)
         /\ l' = l + 1
 Spec == Init /\ [][Next]_l
 
+\* reaching the end of the trace ends the search at once (reported by TLC as a violation of NotDone = accepted);
+\* otherwise the postcondition reports the longest matched prefix
+NotDone == l <= Len(Rec)
 Matched == TLCGet("stats").diameter - 1
 TraceAccepted ==
     \/ Matched = Len(Rec)
